@@ -57,6 +57,10 @@ pub enum Stmt {
         /// configure the target: `with ($cfg<t>: 1)` / `$with: (cfg<t>: 1)`
         #[serde(default)]
         with_cfg: bool,
+        /// `@forward` only: 1 = `hide $zz<t>` (hides nothing), 2 = `show <every member that is visible
+        /// anyway>` - both leave the meaning unchanged and take the filtered-forward code path
+        #[serde(default)]
+        filter: u8,
     },
     /// `m<i> { f: <i>; }`
     Marker,
@@ -74,6 +78,10 @@ pub enum Stmt {
         value: u32,
         #[serde(default)]
         wrap: Wrap,
+        /// assign from INSIDE the module: `@include <ns>.bump<t>(<value>)`, where module t defines
+        /// `@mixin bump<t>($x) { $v<t>: $x !global; }`
+        #[serde(default)]
+        by_mixin: bool,
     },
     /// C03: `u<j>-<k> { id: <ns>.$id<t>; v: <ns>.$v<t>; }`
     Probe { ns: String, target: usize, tag: u32 },
@@ -129,9 +137,22 @@ impl GraphSpec {
                         head.push_str(&format!("@use \"{url}\" as {ns};\n"));
                     }
                 }
-                Stmt::Load { kind: LoadKind::Forward, url, with_cfg, target, .. } => {
+                Stmt::Load { kind: LoadKind::Forward, url, with_cfg, target, filter, .. } => {
                     let w = if *with_cfg { format!(" with ($cfg{target}: 1)") } else { String::new() };
-                    head.push_str(&format!("@forward \"{url}\"{w};\n"));
+                    let flt = match (*with_cfg, *filter) {
+                        (false, 1) => format!(" hide $zz{target}"),
+                        (false, 2) => {
+                            let mut names = vec![];
+                            for x in self.forward_closure(*target) {
+                                names.push(format!("$id{x}"));
+                                names.push(format!("$v{x}"));
+                                names.push(format!("bump{x}"));
+                            }
+                            format!(" show {}", names.join(", "))
+                        }
+                        _ => String::new(),
+                    };
+                    head.push_str(&format!("@forward \"{url}\"{flt}{w};\n"));
                 }
                 Stmt::Load { kind: LoadKind::Import, url, wrap, .. } => match wrap {
                     Wrap::Rule => body.push_str(&format!("w{i}x{k} {{ @import \"{url}\"; }}\n")),
@@ -173,10 +194,13 @@ impl GraphSpec {
                 Stmt::Marker => body.push_str(&format!("m{i} {{ f: {i}; }}\n")),
                 Stmt::ModuleVars => {
                     body.push_str(&format!(
-                        "$id{i}: unique-id();\n$v{i}: 0;\nm{i} {{ id: $id{i}; }}\n"
+                        "$id{i}: unique-id();\n$v{i}: 0;\n@mixin bump{i}($x) {{ $v{i}: $x !global; }}\nm{i} {{ id: $id{i}; }}\n"
                     ));
                 }
-                Stmt::Assign { ns, target, value, wrap } => {
+                Stmt::Assign { ns, target, value, by_mixin: true, .. } => {
+                    body.push_str(&format!("@include {}bump{target}({value});\n", self.ns_prefix(i, ns)));
+                }
+                Stmt::Assign { ns, target, value, wrap, .. } => {
                     let a = format!("{}$v{target}: {value};", self.ns_prefix(i, ns));
                     match wrap {
                         Wrap::If => body.push_str(&format!("@if true {{ {a} }}\n")),
@@ -215,6 +239,26 @@ impl GraphSpec {
             return format!("{}.", url.rsplit('/').next().unwrap_or(""));
         }
         format!("{ns}.")
+    }
+
+    /// File `t` and every file it forwards, transitively (what a user of `t` can see).
+    pub fn forward_closure(&self, t: usize) -> Vec<usize> {
+        let mut out = vec![t];
+        let mut k = 0;
+        while k < out.len() {
+            let f = out[k];
+            k += 1;
+            if let Some(file) = self.files.get(f) {
+                for s in &file.stmts {
+                    if let Stmt::Load { kind: LoadKind::Forward, target, .. } = s {
+                        if !out.contains(target) {
+                            out.push(*target);
+                        }
+                    }
+                }
+            }
+        }
+        out
     }
 
     /// Like `ns_prefix`, for a named namespace given directly.
